@@ -17,22 +17,30 @@ RULE = (
     "mo: sequences [construct, assignment…] on real MolecularOrbitals objects: constructs = kinds {restricted, "
     "unrestricted, generalized, illegal} x orbital counts 0-3 x occupation patterns (None, integer closed/open, "
     "fractional, with occs_aminusb, wrong lengths, contradictory counts); assignments of occs, occs_aminusb, occsa, "
-    "occsb, coeffs, energies, irreps over arrays of length 0-3 of dyadic values; quick: every construct x ALL pairs of "
-    "assignments + random sequences of length <= 8 with random values; thorough: ALL triples + longer random. "
+    "occsb, coeffs, energies, irreps over arrays of length 0-3 of dyadic values AND re-assignments of kind (3 legal "
+    "names + an illegal one), norba, norbb (None, 0-3); quick: every construct x ALL pairs of assignments (re-assignments "
+    "included) + every construct x [re-assignment, any assignment, re-assignment] + random sequences of length <= 8 "
+    "with random values (about every fourth operation a re-assignment, array lengths drawn from the counts the "
+    "re-assignments would produce); thorough: ALL triples + longer random. "
     "shl: shells with 0-4 contractions, l 0-9, kinds c/p/illegal, coeffs of 1-3 dimensions, assignment sequences. "
-    "After EVERY operation the exception class and all observables (occs, occs_aminusb, occsa, occsb, nelec, spinpol, "
-    "norb, alpha/beta views of coeffs/energies/irreps; nbasis, ncon, nexp, shapes) are compared with the Lean model. "
+    "After EVERY operation the exception class and all observables (kind, norba, norbb, occs, occs_aminusb, occsa, "
+    "occsb, nelec, spinpol, norb, alpha/beta views of coeffs/energies/irreps; nbasis, ncon, nexp, shapes) are compared "
+    "with the Lean model. search: the property's predicates on the real code only, after every step of random "
+    "histories (same operation set): array lengths = norb, kind fits the counts, occs_aminusb only when restricted, "
+    "a re-assignment is accepted iff the constructor would accept the resulting arguments and a refused one changes "
+    "nothing, plus the derived-quantity relations. "
     "non-trivial = an operation raised or changed an observable; distinct = distinct request line"
 )
 TRUSTED = [
     "the ast walk of orbitals.py/basis.py listing field order, validators and the accessors that refuse generalized orbitals",
 ]
 ASSUMPTIONS = [
-    "attrs.define semantics (validators in __init__ in field order on the new object, on assignment on the old one)",
+    "attrs.define semantics (validators in __init__ in field order on the new object, on assignment on the old one; "
+    "attrs.evolve = __init__ of a copy with one changed argument; a validator list runs in order)",
     "numpy 1-D broadcasting, slice assignment, astype(int), clip as transcribed in Model/Orbitals.lean",
     "coeffs is modelled by one scalar per column (the harness uses 2-row matrices and checks the rows move together)",
     "doubles are exact on the dyadic alphabet; theorems are over Q",
-    "kind/norba/norbb are not re-assigned after construction (outside the property's quantifier)",
+    "orbital counts are None or non-negative ints (Nat in the model); illegal kind names are one class",
 ]
 TIME_LIMIT = {"quick": 900, "thorough": 3600}
 
@@ -97,7 +105,9 @@ def translate(ctx):
 # real-code side of the `mo` stream
 
 KIND = {"r": "restricted", "u": "unrestricted", "g": "generalized", "x": "spinor"}
+KINDCODE = {v: k for k, v in KIND.items()}
 ARRS = ("occs", "coeffs", "energies", "irreps", "aminusb")
+REASSIGN = ("kind", "norba", "norbb")
 PYNAME = {"aminusb": "occs_aminusb"}
 
 
@@ -131,12 +141,16 @@ def enc_op(op):
                  f"norbb={'-' if a['norbb'] is None else a['norbb']}"]
         parts += [f"{k}={enc_arr(a[k])}" for k in ARRS if a.get(k) is not None]
         return "new:" + ";".join(parts)
+    if op[1] in REASSIGN:
+        return f"set:{op[1]}={'-' if op[2] is None else op[2]}"
     return f"set:{op[1]}={enc_arr(op[2])}"
 
 
 def to_np(name, v):
-    if v is None:
-        return None
+    if name == "kind":
+        return KIND[v]
+    if v is None or name in REASSIGN:
+        return v
     a = np.array([float(x) for x in v], dtype=float)
     if name == "coeffs":
         return np.array([a, 2 * a])
@@ -164,7 +178,16 @@ def _cols(c):
 
 
 def observe(m):
+    try:
+        return _observe(m)
+    except Exception as exc:  # only objects the class should never reach (e.g. kind contradicting the counts)
+        return "observing-raised:" + exc_class(exc)
+
+
+def _observe(m):
     return (
+        f"kind={KINDCODE.get(m.kind, '?')};na={'-' if m.norba is None else int(m.norba)};"
+        f"nb={'-' if m.norbb is None else int(m.norbb)};"
         f"occs={s_arr(m.occs)};ab={s_arr(m.occs_aminusb)};oa={_s(lambda: m.occsa, s_arr)};ob={_s(lambda: m.occsb, s_arr)};"
         f"ne={s_num(m.nelec)};sp={_s(lambda: m.spinpol, s_num)};norb={'-' if m.norb is None else int(m.norb)};"
         f"ca={_s(lambda: m.coeffsa, _cols)};cb={_s(lambda: m.coeffsb, _cols)};"
@@ -211,7 +234,8 @@ def _work(ops):
     nerr = sum(p.startswith("err") for p in parts)
     kind = ops[0][1]["kind"] if ops and ops[0][0] == "new" else "?"
     first = "rejected" if parts and parts[0].startswith("err") else "built"
-    return "|".join(parts), nontriv, f"kind={kind}/{first}/errs={min(nerr, 3)}"
+    nre = sum(op[0] == "set" and op[1] in REASSIGN for op in ops)
+    return "|".join(parts), nontriv, f"kind={kind}/{first}/errs={min(nerr, 3)}/reassign={min(nre, 2)}"
 
 
 H, Q = Fr(1, 2), Fr(1, 4)
@@ -258,6 +282,15 @@ def assignments():
         ("set", "coeffs", None), ("set", "coeffs", (F(1), F(2))), ("set", "coeffs", (F(1), F(2), F(3))),
         ("set", "energies", (F(-1), -H)), ("set", "energies", (F(1), F(2), F(3))),
         ("set", "irreps", (F(1), F(2))),
+        *reassignments(),
+    ]
+
+
+def reassignments():
+    return [
+        ("set", "kind", "r"), ("set", "kind", "u"), ("set", "kind", "g"), ("set", "kind", "x"),
+        ("set", "norba", None), ("set", "norba", 0), ("set", "norba", 1), ("set", "norba", 2), ("set", "norba", 3),
+        ("set", "norbb", None), ("set", "norbb", 0), ("set", "norbb", 1), ("set", "norbb", 2),
     ]
 
 
@@ -292,24 +325,49 @@ def rand_construct(rng):
     return mk(kind, na, nb, **d)
 
 
+def _norb_of(kind, na, nb):
+    if kind == "r":
+        return na
+    if kind in ("u", "x"):
+        return None if na is None or nb is None else na + nb
+    return None
+
+
 def rand_seq(rng, maxlen):
     ops = [rand_construct(rng)]
-    n = None
+    chain = rng.random() < 0.35
+    if chain:
+        # start without arrays (the objects on which changed counts / kinds can be accepted), re-assign often and
+        # follow the counts the re-assignments ask for
+        ops = [mk(*(ops[0][1][k] for k in REASSIGN))]
     a = ops[0][1]
-    if a["kind"] == "r":
-        n = a["norba"]
-    elif a["kind"] in ("u", "x") and a["norba"] is not None and a["norbb"] is not None:
-        n = a["norba"] + a["norbb"]
+    # `st`: the kind/counts the object would have if every re-assignment so far were accepted (a bias for
+    # the lengths only; what really happens is decided by the code under test resp. the model)
+    st = {"kind": a["kind"], "norba": a["norba"], "norbb": a["norbb"]}
+    n0 = _norb_of(a["kind"], a["norba"], a["norbb"])
     for _ in range(rng.randint(0, maxlen - 1)):
         r = rng.random()
         if r < 0.08:
             ops.append(rand_construct(rng))
             continue
+        if r < (0.5 if chain else 0.25):
+            name = rng.choice(REASSIGN)
+            if name == "kind":
+                v = rng.choice(["r", "u", "u", "r", "g", "x"])
+            else:
+                v = rng.choice([st["norba"], st["norbb"], rng.randint(0, 3), rng.randint(0, 3), None])
+            ops.append(("set", name, v))
+            if chain or rng.random() < 0.7:
+                st[name] = v
+            continue
+        n = _norb_of(st["kind"], st["norba"], st["norbb"])
+        if n is None or rng.random() < (0.1 if chain else 0.25):
+            n = n0
         name = rng.choice(["occs", "occs", "aminusb", "occsa", "occsa", "occsb", "occsb", "coeffs", "energies", "irreps"])
         if name in ("occsa", "occsb"):
-            k = a["norba"] if name == "occsa" or a["kind"] == "r" else a["norbb"]
+            k = st["norba"] if name == "occsa" or st["kind"] == "r" else st["norbb"]
             v = rand_arr(rng, k if (k is not None and rng.random() < 0.7) else None)
-        elif rng.random() < 0.15:
+        elif rng.random() < 0.2:
             v = None
         else:
             v = rand_arr(rng, n if (n is not None and rng.random() < 0.8) else None)
@@ -450,11 +508,15 @@ def correspond(ctx):
                     ([c, *t] for c in C for t in itertools.product(A, repeat=depth)))
         _corr_batch(ctx, pool, "mo-reconstruct", "mo", enc_op, _work,
                     ([c1, a, c2] for c1 in C for a in A[:12] for c2 in C))
+        R = reassignments()
+        _corr_batch(ctx, pool, "mo-reassign", "mo", enc_op, _work,
+                    ([c, r1, a, r2] for c in C for r1 in R for a in A for r2 in R))
         _corr_batch(ctx, pool, "mo-random", "mo", enc_op, _work,
                     [rand_seq(rng, ctx.n(8, 16)) for _ in range(ctx.n(25000, 150000))])
         _corr_batch(ctx, pool, "shl-random", "shl", shell_enc, _shell_work,
                     [rand_shell_seq(rng, ctx.n(5, 8)) for _ in range(ctx.n(12000, 80000))])
-    ctx.extra_cov["exhaustive_depth"] = {"constructs": len(C), "assignment_alphabet": len(A), "assignments_per_sequence": depth}
+    ctx.extra_cov["exhaustive_depth"] = {"constructs": len(C), "assignment_alphabet": len(A),
+                                         "of_which_reassignments": len(R), "assignments_per_sequence": depth}
 
 
 # --------------------------------------------------------------------------------------
@@ -492,6 +554,16 @@ def _valid_args(a):
     return True
 
 
+def _state_args(m):
+    """the constructor arguments that would rebuild the object `m` (arrays by length only)"""
+    a = {"kind": KINDCODE.get(m.kind, "x"), "norba": m.norba, "norbb": m.norbb}
+    for k in ARRS:
+        arr = getattr(m, PYNAME.get(k, k))
+        if arr is not None:
+            a[k] = (0,) * (arr.shape[1] if k == "coeffs" else len(arr))
+    return a
+
+
 def check_mo_history(ops):
     bad = []
     cur = None
@@ -513,6 +585,30 @@ def check_mo_history(ops):
             cur, kind = m, op[1]["kind"]
         elif cur is None:
             continue
+        elif op[1] in REASSIGN:
+            # re-assignment of kind / norba / norbb: accepted exactly when the constructor would accept the
+            # resulting arguments (independent oracle `_valid_args`), refused ones change nothing
+            name, v = op[1], op[2]
+            args = _state_args(cur)
+            before = (cur.kind, cur.norba, cur.norbb)
+            args[name] = v
+            want = _valid_args(args)
+            try:
+                setattr(cur, name, to_np(name, v))
+                ok = True
+            except (TypeError, ValueError):
+                ok = False
+            except Exception as exc:
+                ok = False
+                bad.append(("set-wrong-exception:" + name, f"step {i}: {type(exc).__name__}"))
+            if ok and not want:
+                bad.append((f"reassign-accepts-inconsistent:{name}",
+                            f"step {i}: {name} = {v!r} accepted on {before} with array lengths "
+                            f"{ {k: len(x) for k, x in args.items() if k in ARRS} }"))
+            if not ok and want:
+                bad.append((f"reassign-rejects-consistent:{name}", f"step {i}: {name} = {v!r} refused on {before}"))
+            if not ok and (cur.kind, cur.norba, cur.norbb) != before:
+                bad.append((f"refused-reassign-changes-object:{name}", f"step {i}"))
         else:
             name, v = op[1], op[2]
             before_a, _ = _get(lambda: None if cur.occsa is None else np.array(cur.occsa))
@@ -549,6 +645,14 @@ def check_mo_history(ops):
         m = cur
         if m is None:
             continue
+        counts_ok = {"restricted": m.norba is not None and m.norba == m.norbb,
+                     "unrestricted": m.norba is not None and m.norbb is not None,
+                     "generalized": m.norba is None and m.norbb is None}.get(m.kind, False)
+        if not counts_ok:
+            bad.append((f"kind-contradicts-counts:{m.kind}", f"step {i}: kind {m.kind}, norba {m.norba}, norbb {m.norbb}"))
+            continue
+        if m.occs_aminusb is not None and m.kind != "restricted":
+            bad.append((f"aminusb-on-nonrestricted:{m.kind}", f"step {i}"))
         n = m.norb
         for nm in ("occs", "energies", "irreps", "occs_aminusb"):
             arr = getattr(m, nm)
@@ -642,7 +746,7 @@ def _perturb(rng, ops):
     """replace some dyadic entries by non-dyadic doubles (tolerant comparisons only)"""
     out = []
     for op in ops:
-        if op[0] == "set" and op[2] is not None and rng.random() < 0.3:
+        if op[0] == "set" and op[1] not in REASSIGN and op[2] is not None and rng.random() < 0.3:
             out.append(("set", op[1], tuple(rng.choice(NONDYADIC) if rng.random() < 0.5 else x for x in op[2])))
         else:
             out.append(op)
@@ -657,6 +761,8 @@ def _js(ops):
     for op in ops:
         if op[0] == "new":
             out.append(["new", {k: (j(v) if k in ARRS else v) for k, v in op[1].items()}])
+        elif op[1] in REASSIGN:
+            out.append(["set", op[1], op[2]])
         else:
             out.append(["set", op[1], j(op[2])])
     return out
@@ -667,6 +773,8 @@ def _unjs(ops):
     for op in ops:
         if op[0] == "new":
             out.append(("new", {k: (None if v is None else tuple(v)) if k in ARRS else v for k, v in op[1].items()}))
+        elif op[1] in REASSIGN:
+            out.append(("set", op[1], op[2]))
         else:
             out.append(("set", op[1], None if op[2] is None else tuple(op[2])))
     return out
@@ -675,10 +783,12 @@ def _unjs(ops):
 def search(ctx):
     rng = ctx.rng
     mult = 4 if ctx.escalated else 1
-    items = [("mo", _perturb(rng, rand_seq(rng, ctx.n(8, 16)))) for _ in range(ctx.n(15000, 100000) * mult)]
+    # shortest histories first, so that the witness reported for a signature is a short one
+    C, A, R = constructs(), assignments(), reassignments()
+    items = [("mo", [c, r]) for c in C for r in R]
     if ctx.escalated or ctx.thorough:
-        C, A = constructs(), assignments()
         items += [("mo", [c, a1, a2]) for c in C for a1 in A for a2 in A]
+    items += [("mo", _perturb(rng, rand_seq(rng, ctx.n(8, 16)))) for _ in range(ctx.n(15000, 100000) * mult)]
     items += [("shell", rand_shell_new(rng)[1]) for _ in range(ctx.n(4000, 60000) * mult)]
     with mp.get_context("fork").Pool(min(14, mp.cpu_count())) as pool:
         results = pool.map(_search_work, items, chunksize=200)
